@@ -8,7 +8,7 @@ import json
 import os
 import re
 
-from .. import clih, common, routing
+from .. import clih, common, pairwise, routing
 
 PROP = "C04"
 MOD = "vf.checks.c04"
@@ -59,6 +59,11 @@ def scenarios(tier):
             if ("Q" in extra or "cut2" in extra) and layout == "single":
                 continue
             S.append(dict(layout=layout, demux=None, keys=["m", "max_n"], final=None, redirect=True, report="full", extra=extra))
+    # every pair of entries of the option universe of vf.pairwise
+    for k in range(pairwise.count()):
+        p = pairwise.get(k)
+        S.append(dict(pw=k, label=p["label"], layout=p["layout"], demux=p["outs"].get("demux"), keys=[], final=None, redirect=False,
+                      report="full", extra=None))
     # the same figures with two cores (statistics merged across workers), default schedule of the virtual scheduler
     for layout in ("single", "paired"):
         for extra in (dict(poly_a=True), dict(q="10,10", nextseq=12), dict(times=2), None):
@@ -69,6 +74,9 @@ def scenarios(tier):
 
 
 def opts_of(sc):
+    if "pw" in sc:
+        p = pairwise.get(sc["pw"])
+        return dict(p["opts"]), dict(p["outs"])
     o = dict(e=0.1, O=5)
     for k in sc["keys"]:
         o[k] = THR[k]
@@ -110,8 +118,11 @@ def run_shard(d):
     r1, r2 = _corpora()
     wd = clih.fresh_dir("c04")
     res = dict(evals=0, runs=0, nontrivial=0, viol=common.Viols(cap=3), samples=[])
+    fwd = (r1, r2)
     for i in d["idx"]:
-        sc = S[i]
+        sc = dict(S[i], reversed_corpus=(i % 2 == 1))
+        # every other scenario reads the corpus back to front (the reference judges each read on its own)
+        r1, r2 = (fwd[0][::-1], fwd[1][::-1]) if sc["reversed_corpus"] else fwd
         o, outs = opts_of(sc)
         paired = sc["layout"] != "single"
         out = routing.run_scenario(o, outs, sc["layout"], r1, r2 if paired else None, wd, report=sc["report"], want_json=True,
@@ -212,10 +223,16 @@ def account(sc, o, outs, out, r1, r2):
         checks += [("poly_a_trimmed", sum(polya)), ("poly_a_trimmed_read1", polya[0])]
         if paired:
             checks.append(("poly_a_trimmed_read2", polya[1]))
+    # a figure for something that was not requested for that read (-Q without -q: nothing trims R1) is reported as null
     for k, v in checks:
-        if bp.get(k) != v:
+        if bp.get(k) != v and not (bp.get(k) is None and v == 0):
             V.append(("json-bp", f"JSON basepair_counts[{k}]={bp.get(k)} but the sum over the reads / files is {v}", {}))
-    if rc.get("read1_with_adapter") != with_ad[0] or (paired and rc.get("read2_with_adapter") != with_ad[1]):
+    wa = [rc.get("read1_with_adapter"), rc.get("read2_with_adapter")]
+    if not o.get("adapters") and wa[0] is None:
+        wa[0] = 0  # no adapter given for R1: reported as null
+    if paired and not o.get("adapters2") and wa[1] is None:
+        wa[1] = 0
+    if wa[0] != with_ad[0] or (paired and wa[1] != with_ad[1]):
         V.append(("json-with-adapter", f"JSON with-adapter counts {rc.get('read1_with_adapter')}/{rc.get('read2_with_adapter')} "
                   f"but {with_ad[0]}/{with_ad[1]} reads have a match", {}))
     txt = out["result"].report_text()
@@ -286,6 +303,8 @@ def replay(path):
     sc = v["case"]["scenario"]
     o, outs = opts_of(sc)
     r1, r2 = _corpora()
+    if sc.get("reversed_corpus"):
+        r1, r2 = r1[::-1], r2[::-1]
     paired = sc["layout"] != "single"
     wd = clih.fresh_dir("c04r")
     out = routing.run_scenario(o, outs, sc["layout"], r1, r2 if paired else None, wd, report=sc["report"], want_json=True,
